@@ -55,6 +55,7 @@ StrOf(s, p)  == Strings[KindOf(s, p).vid]
 \* an entry survives loading iff it is a non-null entry with metadata and a valid version
 SurvivesIn(s, p) == /\ ~KindOf(s, p).null
                     /\ KindOf(s, p).meta
+                    /\ ~KindOf(s, p).bad
                     /\ StrOf(s, p).valid
 
 \* semantic-version precedence of the strings used here: rank, then pre-release < release;
